@@ -294,7 +294,7 @@ func TestC03_ExhaustiveTemplates(t *testing.T) {
 	rec.DupFree = true
 	defer finish(t, rec)
 	alpha := []string{"{", "}", "#", "/", "^", "!", "a", "i", "f", " ", "\"", "é", "😀"}
-	maxLen := pick(5, 6)
+	maxLen := pick(4, 6)
 	rec.Bounds = fmt.Sprintf("all strings of length 0..%d over { } # / ^ ! a i f blank \" é 😀", maxLen)
 	m := map[string]string{"a": "x", "A": "y", "if": ""}
 	enumStrings(alpha, maxLen, true, func(parts []string) {
